@@ -314,7 +314,15 @@ const Network = "/verif"
 // SpecInfinity is the protocol's infinity metric (dv/SPEC.md), hard-wired like in the Lean specs.
 const SpecInfinity = 16
 
-func RouterName(i int) string { return fmt.Sprintf("%s/r%d", Network, i) }
+// RouterName is the `router:` URI of router i as an operator may write it: every other one (router 0,
+// the publisher of the C19 histories, among them) with a trailing slash (accepted by Config.Parse,
+// same name).
+func RouterName(i int) string {
+	if i%2 == 0 {
+		return fmt.Sprintf("%s/r%d/", Network, i)
+	}
+	return fmt.Sprintf("%s/r%d", Network, i)
+}
 
 // NewSim creates n routers (real dv.Router around a harness engine), starts their management
 // threads and adds each router to its own RIB (what Router.Start does).
